@@ -618,7 +618,7 @@ Definition holds_agree_ob (a o : list N) : bool :=
   end.
 
 (* ---------------- family history (C07) ---------------- *)
-(* args [kind; seed; size; bs; sink; driver; nops; (nq; q..; cutkind; cutparam)*] *)
+(* args [kind; seed; size; bs; sink; driver; prefill; nops; (nq; q..; cutkind; cutparam)*] *)
 Fixpoint hist_ops (n : nat) (l : list N) : list (ranges * N * N) :=
   match n with
   | O => []
@@ -651,10 +651,10 @@ Definition run_history (a : list N) : list N :=
   let t := mkTree (blen B3 data) bs in
   let k := okind_of (arg a 4) in
   let ob0 := mkOb3 k (root_hash B3 data) t (match k with EmptyOb => [] | _ => zeros B3 (N.to_nat (outboard_size t)) end) in
-  let ops := hist_ops (N.to_nat (arg a 6)) (skipn 7 a) in
+  let ops := hist_ops (N.to_nat (arg a 7)) (skipn 8 a) in
   snd (fold_left (fun acc op => let '(st, out) := acc in
                                 let '(st', o) := hist_step_run data bs (arg a 5) st op in (st', out ++ o))
-                 ops ((repeat 0%uint63 (length data), ob0), [])).
+                 ops ((repeat (int_of_N (arg a 6)) (length data), ob0), [])).
 
 (* --- C07 oracle: D = chunks delivered so far, computed from the honest item list and the cut --- *)
 Definition leaf_chunk_list (off len : N) : list N :=
@@ -675,10 +675,10 @@ Definition add_delivered (D : list N) (items : list (item B3)) : list N :=
   D ++ flat_map (fun i => match i with ILeaf off d => leaf_chunk_list off (blen B3 d) | _ => [] end) items.
 Definition inD (D : list N) (c : N) : bool := existsb (N.eqb c) D.
 
-Definition expected_target (data : bytes) (D : list N) : bytes :=
+Definition expected_target (prefill : N) (data : bytes) (D : list N) : bytes :=
   let n := nchunks (blen B3 data) in
   flat_map (fun c => let cb := chunk_bytes B3 data c (c + 1) in
-                     if inD D c then cb else repeat 0%uint63 (length cb))
+                     if inD D c then cb else repeat (int_of_N prefill) (length cb))
            (map N.of_nat (seq 0 (N.to_nat n))).
 Definition expected_groups (size bs : N) (D : list N) : list N :=
   let n := nchunks size in let g := 2 ^ bs in
@@ -686,7 +686,7 @@ Definition expected_groups (size bs : N) (D : list N) : list N :=
                       if forallb (inD D) (chunk_range_list a e) then [a; if size =? 0 then 0 else e] else [])
            (map N.of_nat (seq 0 (N.to_nat ((n + g - 1) / g)))).
 
-Fixpoint holds_hist_steps (fuel : nat) (data : bytes) (bs : N) (post : bool) (ops : list (ranges * N * N)) (o : list N) (D : list N) : bool :=
+Fixpoint holds_hist_steps (fuel : nat) (prefill : N) (data : bytes) (bs : N) (post : bool) (ops : list (ranges * N * N)) (o : list N) (D : list N) : bool :=
   match fuel with
   | O => false
   | S f =>
@@ -701,19 +701,19 @@ Fixpoint holds_hist_steps (fuel : nat) (data : bytes) (bs : N) (post : bool) (op
           let D' := add_delivered D (delivered_items hon ck cp 0 0 0) in
           let size := blen B3 data in
           let all := forallb (inD D') (map N.of_nat (seq 0 (N.to_nat (nchunks size)))) in
-          (tdg =? dg (expected_target data D')) && (verr =? 0) &&
+          (tdg =? dg (expected_target prefill data D')) && (verr =? 0) &&
           list_eqb rs (expected_groups size bs D') &&
           (if all then obdg =? dg (spec_outboard B3 post data bs) else true) &&
-          holds_hist_steps f data bs post rest more' D'
+          holds_hist_steps f prefill data bs post rest more' D'
       | _ => false
       end
     end
   end.
 Definition holds_history (a o : list N) : bool :=
   let data := blob a in
-  let ops := hist_ops (N.to_nat (arg a 6)) (skipn 7 a) in
+  let ops := hist_ops (N.to_nat (arg a 7)) (skipn 8 a) in
   negb (existsb (fun x => x =? PANIC) o) &&
-  holds_hist_steps (S (length ops)) data (arg a 3) (is_post (okind_of (arg a 4))) ops o [].
+  holds_hist_steps (S (length ops)) (arg a 6) data (arg a 3) (is_post (okind_of (arg a 4))) ops o [].
 
 (* ---------------- families bao / copy / grow ---------------- *)
 Fixpoint le_bytes (n : nat) (x : N) : bytes :=
